@@ -45,7 +45,7 @@ def email_query(prefix, m, N, extra_defs=(), covers=None, timeout=900, **kw):
     name = MODES[m][1]
     cov = covers if covers is not None else ['end', 'accepted-hostname', 'accepted-literal', 'tld-class']
     return Query('%s-email-%s-N%d' % (prefix, name, N), 'b_email.c', repo=[EMAIL_SRC[m], 'src/eav.c'],
-                 defs=D(VF_N=N, VF_MODE=m) + list(extra_defs), unwind=N + 2,
+                 defs=D(VF_N=N, VF_MODE=m, VF_STRNDUP_MAX=N + 2) + list(extra_defs), unwind=N + 4,
                  covers=cov, leak=True,
                  optional_covers=['lpart-too-long', 'accepted-lpart-64', 'special', 'not-fqdn', 'idn-error',
                                   'accepted-tagged-v6', 'accepted-v4', 'accepted-untagged-v6', 'lpart-64-rejected-by-leaf'],
@@ -248,7 +248,7 @@ def special_query(prefix, N, prefixlen=None, **kw):
 
 
 def c07_queries(tier):
-    qs = [tldtable_query('C07'), tld_query('C07', 3, 3) if tier == 'quick' else tld_query('C07', 5, 5)]
+    qs = [tldtable_query('C07')] + ([tld_query('C07', 3, 3), tld_query('C07', 2, 63)] if tier == 'quick' else [tld_query('C07', 5, 5), tld_query('C07', 3, 63)])
     N = 20 if tier == 'quick' else 40
     qs += [email_query('C07', m, N, covers=['end', 'tld-class', 'not-fqdn' if m < 3 else 'accepted-hostname', 'special' if m < 3 else 'end'],
                        timeout=3000) for m in range(4)]
@@ -262,7 +262,7 @@ def c09_queries(tier):
 
 
 def c11_queries(tier):
-    return [tldtable_query('C11'), tld_query('C11', 3, 3)]
+    return [tldtable_query('C11'), tld_query('C11', 3, 3), tld_query('C11', 2, 63)]
 
 
 def utf8dom_query(prefix, N, M, backend='idn2', **kw):
@@ -284,7 +284,60 @@ def c19_queries(tier):
             history_query('C19', K, extra=['-DCB_IDN_FAULT_ONLY'], covers_override=None, timeout=3000)]
 
 
+def c16_queries(tier):
+    N = 20 if tier == 'quick' else 40
+    qs = [email_query('C16', m, N, timeout=3000) for m in range(4)]
+    qs += [email_query('C16extra', m, N, extra_defs=['-DEAV_EXTRA'],
+                       covers=['end', 'accepted-hostname', 'accepted-literal', 'extra-literal', 'extra-domain'], timeout=3000) for m in range(4)]
+    return qs
+
+
+ALL_EMAIL_UNITS = EMAIL_SRC + ['partial/idn2/is_utf8_domain.c', 'src/eav.c']
+
+
+def pipeline_query(prefix, N, **kw):
+    return Query('%s-pipeline-4modes-N%d' % (prefix, N), 'b_pipeline.c', repo=ALL_EMAIL_UNITS, defs=D(VF_N=N, VF_STRNDUP_MAX=N + 2),
+                 unwind=N + 4, leak=True, covers=['end', 'idn-rejects-what-ascii-accepts', 'same-class', 'both-accept'],
+                 bounds={'max_address_len': N, 'alphabet': '0x01-0x7F', 'tld_check': 'both', 'converter_rc': 'any int'},
+                 functions=EMAIL_FN + ['is_utf8_domain'],
+                 note='leaf validators: case-insensitive uninterpreted functions of range content; converter: K1+K2', **kw)
+
+
+def c12_queries(tier):
+    N = 8 if tier == 'quick' else 11
+    return [cross_query('C12', 2, N, ['all-accept', 'all-reject'], 'noquote-4modes', timeout=3000),
+            cross_query('C12', 3, N, ['accept-quoted', '822-only'], '5321-subset-822',
+                        srcs=['src/is_822_local.c', 'src/is_5321_local.c'], timeout=3000),
+            pipeline_query('C12', 12 if tier == 'quick' else 16, timeout=3000)]
+
+
+def c10_queries(tier):
+    N = 8 if tier == 'quick' else 24
+    return [utf8dom_query('C10', N, N), pipeline_query('C10', 12 if tier == 'quick' else 16, timeout=3000),
+            email_query('C10', 3, 16 if tier == 'quick' else 40, covers=['end', 'idn-error', 'accepted-hostname', 'tld-class'])]
+
+
 PROPS = {
+    'C10': {
+        'queries': c10_queries, 'pre': pre.c10_pre,
+        'level': 'model_checking',
+        'outside': ['libidn2 itself (binary): IDNA2008 mapping/validity, Punycode, rejection of invalid U-labels; modelled by contract K1-K3',
+                    'K2/K3 are validated on concrete data against the live libidn2 (pre-checks), not proved'],
+        'assumptions': ['K1: converter returns an error code or OK with a NUL-terminated heap string',
+                        'K2: on all-ASCII input a successful conversion equals the input up to ASCII case',
+                        'K3: U-label and A-label spellings of one name convert to the same string'],
+    },
+    'C12': {
+        'queries': c12_queries,
+        'level': 'model_checking',
+        'outside': ['strings longer than the stated bounds'],
+    },
+    'C16': {
+        'queries': c16_queries,
+        'level': 'model_checking',
+        'outside': ['addresses longer than max_address_len'],
+        'assumptions': ['leaf validators behave as arbitrary functions of their (start,end) range with the documented result range'],
+    },
     'C19': {
         'queries': c19_queries,
         'level': 'model_checking',
